@@ -405,10 +405,15 @@ def run_check(prop, tier='quick', seed=0, only=None, nproc=None, verbose=True):
     for fn, key, cex, rep in violations:
         print('VIOLATION property=%s replay=%s' % (prop, fn), flush=True)
         log('  obligation=%s cex=%s\n  observed=%s' % (key, json.dumps(cex, default=str)[:600], str(rep.get('detail'))[:600]))
-    for m in harness_errors:
-        log('HARNESS-ERROR ' + m[:3000])
-    for m in inconclusive:
-        log('INCONCLUSIVE ' + m[:1500])
+    def _distinct(msgs, limit=6):
+        seen = {}
+        for m in msgs:
+            seen[m[:300]] = seen.get(m[:300], 0) + 1
+        return list(seen.items())[:limit]
+    for m, c in _distinct(harness_errors):
+        log('HARNESS-ERROR (x%d) %s' % (c, m[:3000]))
+    for m, c in _distinct(inconclusive):
+        log('INCONCLUSIVE (x%d) %s' % (c, m[:1500]))
 
     if violations:
         status = 1
